@@ -434,8 +434,65 @@ func (p *bprover) val(v ssa.Value, at *ssa.BasicBlock) lin {
 		}
 	case *ssa.ChangeType:
 		return p.val(x.X, at)
+	case *ssa.Field:
+		return atomLin(p.fieldAtom(x.X, x.Field))
+	case *ssa.UnOp:
+		// a member of a local struct variable that is written as a whole once and whose member is never
+		// written by itself: the member of that value, whichever load reads it
+		if fa, ok := x.X.(*ssa.FieldAddr); ok && x.Op == token.MUL {
+			if al, ok := fa.X.(*ssa.Alloc); ok {
+				if whole := stableMember(al, fa.Field); whole != nil {
+					return atomLin(p.fieldAtom(whole, fa.Field))
+				}
+			}
+		}
 	}
 	return atomLin(p.id(v))
+}
+
+func (p *bprover) fieldAtom(v ssa.Value, k int) string {
+	return fmt.Sprintf("fld(%s,%d)", p.id(v), k)
+}
+
+// stableMember: the cell is stored to as a whole exactly once, member k is never stored by itself and
+// its address is only used for loads: the value stored as a whole.
+func stableMember(al *ssa.Alloc, k int) ssa.Value {
+	var whole ssa.Value
+	n := 0
+	for _, ref := range *al.Referrers() {
+		switch r := ref.(type) {
+		case *ssa.Store:
+			if r.Addr != ssa.Value(al) {
+				return nil
+			}
+			n++
+			whole = r.Val
+		case *ssa.FieldAddr:
+			for _, rr := range *r.Referrers() {
+				switch s := rr.(type) {
+				case *ssa.Store:
+					if s.Addr != ssa.Value(r) {
+						return nil
+					}
+					if r.Field == k {
+						return nil
+					}
+				case *ssa.UnOp, *ssa.DebugRef:
+				default:
+					if r.Field == k {
+						return nil
+					}
+				}
+			}
+		case *ssa.UnOp, *ssa.DebugRef:
+		default:
+			return nil
+		}
+	}
+	if n != 1 {
+		return nil
+	}
+	return whole
 }
 
 // boundedByLength: facts ⊢ e <= len(...) + c for some length atom set (any upper bound made of lengths/consts).
@@ -445,9 +502,22 @@ func (p *bprover) boundedByLength(e lin, facts []fact) bool {
 		u := f.e.add(e) // f.e = U - e  ⇒ U = f.e + e
 		onlyLen := true
 		for a, k := range u.t {
-			if !(strings.HasPrefix(a, "len(") || strings.HasPrefix(a, "half(")) || k < 0 {
-				onlyLen = false
+			if (strings.HasPrefix(a, "len(") || strings.HasPrefix(a, "half(")) && k >= 0 {
+				continue
 			}
+			// a non-negative quantity subtracted from the bound only makes it smaller (len(input) - base with base >= 0)
+			if k < 0 && !strings.HasPrefix(a, "len(") && p.depth < 30 {
+				nonNeg := false
+				for _, g := range facts {
+					if len(g.e.t) == 1 && g.e.c >= 0 && g.e.t[a] > 0 {
+						nonNeg = true
+					}
+				}
+				if nonNeg {
+					continue
+				}
+			}
+			onlyLen = false
 		}
 		// and f.e must mention e's atoms negatively (i.e. really bound e)
 		if onlyLen && len(e.t) > 0 {
@@ -716,6 +786,9 @@ func (p *bprover) phiInvariants() {
 			case "size", "length", "pos", "ncols", "n":
 				if f.Pkg() != nil && f.Pkg().Path() == modPath+"/dig" {
 					p.global = append(p.global, fact{atomLin(p.id(v)), "assumption: dig type-derived size >= 0"})
+					if l := p.val(v, in.Block()); len(l.t) == 1 && l.c == 0 {
+						p.global = append(p.global, fact{l, "assumption: dig type-derived size >= 0"})
+					}
 					p.assume = append(p.assume, "dig."+f.Name()+" >= 0 (derived from the declared type, not from data)")
 				}
 			}
@@ -726,6 +799,9 @@ func (p *bprover) phiInvariants() {
 			case "size", "length", "pos":
 				if f.Pkg() != nil && f.Pkg().Path() == modPath+"/dig" {
 					p.global = append(p.global, fact{atomLin(p.id(v)), "assumption: dig type-derived size >= 0"})
+					if l := p.val(v, in.Block()); len(l.t) == 1 && l.c == 0 {
+						p.global = append(p.global, fact{l, "assumption: dig type-derived size >= 0"})
+					}
 				}
 			}
 		}
@@ -785,6 +861,50 @@ func (p *bprover) phiInvariants() {
 	for _, ph := range phis {
 		if cand[ph] {
 			p.global = append(p.global, fact{inv(ph), "phi >= its least start value (inductive)"})
+		}
+	}
+	// a position that is chosen among values each of which is inside a byte-slice parameter on its own
+	// edge (`start := 0; if dynamic { if len(input) < 32 { return }; start = 32 }`): phi <= len(parameter),
+	// proven per incoming edge with the facts of that edge (and inductively around loops)
+	for _, par := range p.fn.Params {
+		if !isByteSeq(par.Type()) {
+			continue
+		}
+		if _, isPtr := par.Type().Underlying().(*types.Pointer); isPtr {
+			continue
+		}
+		ucand := map[*ssa.Phi]bool{}
+		for _, ph := range phis {
+			ucand[ph] = cand[ph] // only positions known to be >= 0
+		}
+		uinv := func(ph *ssa.Phi) lin { return p.lenOf(par, ph.Block()).sub(atomLin(p.id(ph))) }
+		for changed := true; changed; {
+			changed = false
+			var hyp []fact
+			for _, ph := range phis {
+				if ucand[ph] {
+					hyp = append(hyp, fact{uinv(ph), "induction hypothesis"})
+				}
+			}
+			for _, ph := range phis {
+				if !ucand[ph] {
+					continue
+				}
+				for i, e := range ph.Edges {
+					pred := ph.Block().Preds[i]
+					facts := append(append(p.edgeFacts(pred, ph.Block()), p.factsAt(pred)...), hyp...)
+					if !p.prove(p.lenOf(par, pred).sub(p.val(e, pred)), facts, 0) {
+						ucand[ph] = false
+						changed = true
+						break
+					}
+				}
+			}
+		}
+		for _, ph := range phis {
+			if ucand[ph] {
+				p.global = append(p.global, fact{uinv(ph), "phi <= len(" + par.Name() + ") on every incoming edge (inductive)"})
+			}
 		}
 	}
 }
